@@ -11,6 +11,7 @@
 (*             warned contours: the call raised, R = <<>>)                                *)
 (*   lastq     the "last summed" value returned with the mask, 2 limbs                    *)
 (*   fmq       contour.fm * prod(deltas) (exact rational arithmetic, rounded), 2 limbs    *)
+(*   fr        per cell the rank of f[c] among the distinct densities (0 = smallest)          *)
 (*   cmp       per cell sign(f - fm) with f = contour.cell_averaged_joint_pdf(centres)       *)
 (*   warned    the constructor emitted the RuntimeWarning "could not be reached"          *)
 (*                                                                                      *)
@@ -81,6 +82,16 @@ Judge(r) ==
          (* float order comparison.  fm is the density of an enclosed cell, no enclosed cell is *)
          (* less dense, every denser cell is enclosed - so that f >= fm reproduces the region   *)
          (* (up to cells tied exactly with fm, which may lie on either side).                   *)
+         (* no excluded cell is strictly denser than an enclosed one, judged on the DENSITIES:   *)
+         (* fr[c] = rank of f[c] among the distinct values of f = cell_averaged_joint_pdf(..)   *)
+         (* (an exact order embedding).  The probabilities f * d1 * .. * dn of densities a few  *)
+         (* ulps apart can coincide, so the order of P does not decide this.                    *)
+         <<"DensityOrder",
+             /\ Len(r.fr) = n
+             /\ (nIn > 0 /\ nIn < n) =>
+                  FoldLeftDomain(LAMBDA acc, c : IF r.R[c] = 0 /\ r.fr[c] > acc THEN r.fr[c] ELSE acc, -1, r.fr)
+                  <= FoldLeftDomain(LAMBDA acc, c : IF r.R[c] = 1 /\ r.fr[c] < acc THEN r.fr[c] ELSE acc,
+                                    2147483647, r.fr)>>,
          <<"FmIsLeastEnclosedDensity",
              /\ Len(r.cmp) = n
              /\ AllWhere(r.R, LAMBDA c : /\ (r.cmp[c] > 0 => r.R[c] = 1)
@@ -99,12 +110,13 @@ Judge(r) ==
 (* dyadic floats P/16 with limit L/16 (all sums exact), the domain of MC_HDC_sel_*.cfg     *)
 (* enumerated by TLC (HDCGen!SpecSel).  P, L, last are the integers (x16); R the returned  *)
 (* mask, warned = a RuntimeWarning was emitted, empty = IndexError was raised.  The        *)
+(* K = 2 * key * 16 when the call passed key (cells ordered by key, P only accumulated).   *)
 (* clauses are the invariants of HDC.tla on exact integers, plus conformance with the      *)
 (* Sort / Accumulate / Select steps of the state machine.                                  *)
 JudgeSel(r) ==
   LET n    == Len(r.P)
       all  == 1..n
-      ord  == DescOrder(r.P)
+      ord  == DescOrder(r.K)          \* K = the key (= P when the call had no key)
       cum  == PrefixSums(r.P, ord, n)
       K    == {k \in all : cum[k] <= r.L}
       Rset == Cells(r.R)
@@ -116,6 +128,7 @@ JudgeSel(r) ==
        <<"Content", SumOver(r.P, Rset) <= r.L>>,
        <<"Tight", out # {} => r.L - SumOver(r.P, Rset) < MaxOver(r.P, out)>>,
        <<"Densest", \A a \in Rset : \A b \in out : r.P[a] >= r.P[b]>>,
+       <<"DensityOrder", \A a \in Rset : \A b \in out : r.K[a] >= r.K[b]>>,
        <<"Threshold", Rset # {} /\ r.last = MinOver(r.P, Rset)>>,
        <<"Sandwich", /\ {c \in all : r.P[c] > r.last} \subseteq Rset
                      /\ Rset \subseteq {c \in all : r.P[c] >= r.last}>>,
